@@ -330,8 +330,10 @@ PROPS.update({
     },
 })
 PROPS['C10']['bounded'] = [B_MUT]
+PROPS['C04']['bounded'] = [B_RT, B_MUT]
 PROPS['C10']['standin'] = ['locale']
 PROPS['C17']['bounded'] = [B_FP]
+PROPS['C17']['kani'] = PROPS['C17']['kani'] + [K('langid_leaf', h) for h in ['leaf_variant_ord_is_lex', 'leaf_language_ord_is_lex', 'leaf_script_ord_is_lex', 'leaf_region_ord_is_lex']]
 PROPS['C13']['standin'] = ['lid', 'locale']
 PROPS['C12']['bounded'] = [B_MUT]
 PROPS['C12']['verus'] = PROPS['C12']['verus'] + [V('langid', r'::vspec::lemma_(lid_ser_injective|lid_parse_ser|lid_roundtrip|strict_sorted_same_set|lid_expected_unique)$')]
